@@ -6,6 +6,7 @@ import (
 	"verifharness/internal/hk"
 	_ "verifharness/props/c01"
 	_ "verifharness/props/c04"
+	_ "verifharness/props/c08"
 	_ "verifharness/props/c10"
 	_ "verifharness/props/c11"
 	_ "verifharness/props/c12"
